@@ -246,6 +246,8 @@ def gen_cases(chk):
     for stem in ("result", "a.b"):
         for e in ("", "json", "hdf5", "h5", "txt", "JSON", "pkl"):
             for arg in (None, "json", "hdf5", "h5", "txt", ""):
+                if stem == "a.b" and e == "":
+                    continue      # "a.b" without extension is not a decomposition os.path.splitext produces
                 if stem == "a.b" and not quick or stem == "result":
                     ext.append({"stem": stem, "ext": e, "arg": arg})
     return cases, ext
